@@ -193,6 +193,15 @@ def _ty_src(t):
     raise ValueError(t["k"])
 
 
+def _tvars_in_order(ty, acc=None):
+    acc = [] if acc is None else acc
+    if ty["k"] == "tv" and ty["s"] not in acc:
+        acc.append(ty["s"])
+    for a in ty["a"]:
+        _tvars_in_order(a, acc)
+    return acc
+
+
 def universe_source(classes):
     tvars = sorted({p for c in classes for p in c["params"]})
     lines = ["import collections.abc", "from dataclasses import dataclass", "from typing import Any, Generic, Iterable, TypeVar",
@@ -204,6 +213,9 @@ def universe_source(classes):
     for c in classes:
         if c["base"]["k"] != "noann":
             base = _ty_src(c["base"])
+            if c["params"] and _tvars_in_order(c["base"]) != list(c["params"]):
+                # the class's own parameter order differs from the order in which its base mentions them
+                base += ", Generic[" + ", ".join(c["params"]) + "]"
         elif c["params"]:
             base = "Generic[" + ", ".join(c["params"]) + "]"
         else:
@@ -315,7 +327,7 @@ CB_CONTEXTS = {
 }
 
 
-def cb_universe(pl, rw, log, params, owner):
+def cb_universe(pl, rw, log, params, owner, inh=False):
     import copy
     from func_adl import func_adl_callable, func_adl_callback, func_adl_parameterized_call
 
@@ -375,8 +387,15 @@ def cb_universe(pl, rw, log, params, owner):
         # only the class of the receiver of the call sites carries the placement: a class-level callback
         # fires for ANY method of its class, so the navigation methods must live on callback-free classes
         mine = name == owner
-        src += f"{cdeco if mine else ''}class {name}:\n{mdeco if mine else ''}    def m(self, tag: int) -> int: ...\n"
-        src += f"{pdeco if mine else ''}    @property\n    def prop(self): ...\n"
+        if mine and inh:
+            # the receiver's class inherits m / prop from a callback-free base class; the class-level callback sits on
+            # the derived class, the method-level / property-level one where the method is defined
+            src += f"class {name}Base:\n{mdeco}    def m(self, tag: int) -> int: ...\n"
+            src += f"{pdeco}    @property\n    def prop(self): ...\n\n"
+            src += f"{cdeco}class {name}({name}Base):\n    def own_{name.lower()}(self) -> int: ...\n"
+        else:
+            src += f"{cdeco if mine else ''}class {name}:\n{mdeco if mine else ''}    def m(self, tag: int) -> int: ...\n"
+            src += f"{pdeco if mine else ''}    @property\n    def prop(self): ...\n"
         if coll:
             src += f"    def {coll[0]}(self) -> Iterable[{coll[1]}]: ...\n"
         if name == "Evt" and owner == "Link":
@@ -402,7 +421,7 @@ def run_callback_case(cid, cs):
     log, params = [], []
     desc, steps, site_stage, recv = CB_CONTEXTS[cs["ctx"]]
     owner = {"e": "Evt", "j": "Jet", "t": "Trk", "h": "Hit", "e.jets().First()": "Jet", "chain": "chain", "e.link()": "Link"}[recv]
-    ns = cb_universe(cs["pl"], cs["rw"], log, params, owner)
+    ns = cb_universe(cs["pl"], cs["rw"], log, params, owner, bool(cs.get("inh")))
     alias = bool(cs.get("alias"))
     sites = ([101, 101] if alias else [101, 102]) if cs["two"] else [101]
 
